@@ -1864,10 +1864,30 @@ impl<'a> Elab<'a> {
         if w.label.is_some() {
             self.unsupported("labelled loop", w.span());
         }
-        let marker = self.loop_marker(format!("while {}", expr_to_string(&w.cond)));
-        if let Expr::Let(_) = &*w.cond {
-            self.unsupported("while let", w.span());
+        // `while let PAT = EXPR { BODY }`  →  `loop { match EXPR { PAT => BODY, _ => break } }`
+        if let Expr::Let(l) = &*w.cond {
+            let marker = self.loop_marker(format!("while {}", expr_to_string(&w.cond)));
+            let scrut = self.fold_temp_scope((*l.expr).clone());
+            let saved = self.env.clone();
+            let mut names = vec![];
+            Self::pat_idents(&l.pat, &mut names);
+            for n in names.iter() {
+                self.unbind(n);
+            }
+            self.brk_stack.push(None);
+            let body = self.fold_loop_body(w.body);
+            self.brk_stack.pop();
+            self.env = saved;
+            let pat = self.fold_pat((*l.pat).clone());
+            return parse_quote!(loop {
+                #marker
+                match #scrut {
+                    #pat => #body,
+                    _ => { break; }
+                }
+            });
         }
+        let marker = self.loop_marker(format!("while {}", expr_to_string(&w.cond)));
         let cond = self.fold_temp_scope(*w.cond);
         self.brk_stack.push(None);
         let mut body = self.fold_loop_body(w.body);
